@@ -12,6 +12,7 @@ import (
 	"encoding/binary"
 	"fmt"
 	"hash/crc32"
+	"os"
 	"sort"
 	"strings"
 	"time"
@@ -92,6 +93,8 @@ type model struct {
 	NextH      int64
 	Cycle      int
 	Gone       map[string]bool // names of files discarded by the total-size limit
+	CheckEvery time.Duration   // group check interval (0: 1 ms); an hour or more means: no ticker
+	sink       *os.File        // write-ahead copy of Log for the parent process (see proc.go)
 	FlushEvery time.Duration   // BaseWAL periodic flush interval (0: one hour, i.e. never)
 	AckedLost  []int           // acknowledged records a power-loss image does not contain
 	Log        []string        // human readable history for witnesses
@@ -114,8 +117,15 @@ func (m *model) file(name string) *fileModel {
 }
 
 func (m *model) logf(format string, a ...interface{}) {
+	line := fmt.Sprintf(format, a...)
 	if len(m.Log) < 400 {
-		m.Log = append(m.Log, fmt.Sprintf(format, a...))
+		m.Log = append(m.Log, line)
+	}
+	if m.sink != nil {
+		if len(line) > 300 {
+			line = line[:300]
+		}
+		m.sink.WriteString(line + "\n")
 	}
 }
 
